@@ -2,12 +2,19 @@
 import json, os
 ROOT = os.path.dirname(os.path.dirname(os.path.abspath(__file__)))
 TECH = "bounded symbolic execution of the real pymodbus code (CrossHair) with z3 deciding each path; counterexamples replayed concretely"
-CHECKS = {
- "C18": dict(cat="model_checking", ref="DESIGN.md 4/C18",
+CHECKS = {}
+CHECKS["C18"] = dict(cat="model_checking", ref="DESIGN.md 4/C18",
     text="Solver-decided single-step obligations over an arbitrary block state (symbolic start, length<=6, contents, address, count): validate iff range inside, read returns the cells, write changes exactly the addressed cells, reset, zero-mode offset and fc->table map for all ten codes, server-context routing over a symbolic unit dict. Every path z3-checked; bounded, not a proof.",
     note="Bounds: block length 1..6 (sparse: subsets of a 4-address window at bases 0/65530), 1..4 written values, <=3 hosted units. Induction from one step to histories is an argument on paper. Trusts CrossHair's Python models and z3.",
-    technique=TECH),
-}
+    technique=TECH)
+CHECKS["C01"] = dict(cat="model_checking", ref="DESIGN.md 4/C01",
+    text="Every encode()/decode() in the server and client decoder tables (incl. diagnostic sub-classes and exception responses) is executed symbolically on arbitrary spec-conformant body bytes of a concrete shape and compared with reference layouts written from the Modbus Application Protocol v1.1b3; bit packing is proved against its arithmetic form by direct AST->z3 translation (lemma K3). z3 decides every path; bounded (list lengths per obligation), not a proof.",
+    note="Bounds: all 8/16-bit field values; register/bit/record/event list lengths as named per obligation (quick: small shapes; thorough: up to the spec maxima 125/123/121 registers, 2000/1968 bits). Reference layouts in spec/pdu.py are trusted as the reading of the spec. Known findings listed in known_findings.json are carved per class x direction.",
+    technique=TECH)
+CHECKS["C02"] = dict(cat="model_checking", ref="DESIGN.md 4/C02",
+    text="Symbolic execution of decode(encode(m)), encode three times, encode(decode(encode(m))) and decode-twice-into-one-object for every class in the decoder tables over all field values of a concrete shape; z3 decides each path. Bounded by list length.",
+    note="Same bounds and trusted base as C01; call histories limited to the four compositions named. Purity compares the bytes of repeated encodes and the caller-set fields (fields encode() computes for itself, e.g. MEI paging outputs, are outputs not inputs).",
+    technique=TECH)
 NA_REASON = "check not built yet in this revision (work in progress; see DESIGN.md build order)"
 
 def main():
